@@ -221,11 +221,11 @@ def first_clause(g: dict, r: dict) -> str | None:
     return None
 
 
-def judge(case: dict, variant: int, src: str, greal, preal, perr) -> list:
+def judge(case: dict, variant: int, src: str, greal, preal, perr, fixed=()) -> list:
     """Compare real Griffe (greal: list of class records or an exception), real CPython and the two spec results.
     Returns events: ("die", msg) | ("viol", sig, what) | ("drift", what) | ("ok",)"""
     ev = []
-    chain, tags = case["chain"], sorted(case["tags"])
+    chain, tags = case["chain"], sorted(t for t in case["tags"] if t not in fixed)   # candidates for a known finding
     ident = {"chain": chain, "variant": variant}
     # -- CPython validates the reference operator (a wrong reference must never look like a verdict)
     if case["wf"]:
@@ -291,12 +291,13 @@ def load_batch(griffe, directory: str, modname: str, header: str, sources: list[
 
 
 def replay_chunk(job) -> dict:
-    """job = (chunk id, scratch dir, [(case, variant), ...]).  Static load of one module holding every chain of the
-    chunk that shares a spelling (the built-in extension runs in GriffeLoader._post_load), exec of each chain."""
+    """job = (chunk id, scratch dir, [(case, variant), ...], triggers assumed fixed).  Static load of one module holding
+    every chain of the chunk that shares a spelling (the built-in extension runs in GriffeLoader._post_load), exec of
+    each chain.  Events carry the (chain, variant) they are about."""
     from gverif.common import ensure_repo  # noqa: PLC0415
 
     griffe = ensure_repo()
-    cid, directory, items = job
+    cid, directory, items, fixed = job
     events = []
     by_variant: dict = {}
     for idx, (case, variant) in enumerate(items):
@@ -322,10 +323,10 @@ def replay_chunk(job) -> dict:
                 greal = [project_griffe(scope.members[n]) for n in names]
             except Exception as exc:  # noqa: BLE001
                 greal = exc
-            evs = judge(case, variant, src, greal, preal, perr)
+            evs = judge(case, variant, src, greal, preal, perr, fixed)
             for e in evs:
                 if e[0] != "ok":
-                    events.append((idx, *e))
+                    events.append(({"chain": case["chain"], "variant": variant}, *e))
             if len(samples) < 2 and case["wf"] and len(case["chain"]) > 1 and not isinstance(greal, BaseException):
                 samples.append({"chain": case["chain"], "variant": variant, "source": src, "griffe": [strip(g) for g in greal]})
     return {"cid": cid, "n": len(items), "events": events, "samples": samples}
